@@ -437,7 +437,46 @@ func init() {
 		return p
 	}
 
+	// every read of the primary times out from now on (an overloaded primary); its writes would still get through
+	vfExtraOps["reads_down"] = func(w *vfWorld, st vfStep, p *vfPrepared) *vfPrepared {
+		p.env = func() {
+			w.fault("db.primary.reads-timeout")
+			w.primary.setReadsDown(2500 * time.Millisecond)
+			w.readsDownDigest = w.dbDigest()
+			w.readsDown = true
+		}
+		return p
+	}
+	vfExtraOps["reads_up"] = func(w *vfWorld, st vfStep, p *vfPrepared) *vfPrepared {
+		p.env = func() {
+			w.primary.setReadsDown(0)
+			w.readsDown = false
+			time.Sleep(3 * time.Second)
+			synctest.Wait()
+		}
+		return p
+	}
 	vfProfiles["C15"] = &vfProfile{
+		Setup: func(w *vfWorld) {
+			// while every profile read is served from the cache, nothing may be written to the primary: whatever a
+			// handler writes is built on a cached (possibly stale) profile
+			w.observers = append(w.observers, func(p *vfPrepared, ctx *vfReqCtx, resp *vfResp) {
+				if !w.readsDown {
+					return
+				}
+				time.Sleep(3 * time.Second)
+				synctest.Wait()
+				w.probe("request-while-reads-time-out")
+				w.primary.setReadsDown(0)
+				d := w.dbDigest()
+				w.primary.setReadsDown(2500 * time.Millisecond)
+				if d != w.readsDownDigest {
+					w.violate("C15", "write-after-cached-read", "write-after-cached-read:"+p.step.Op,
+						fmt.Sprintf("%s (answered %d) changed the primary's content while every read of the primary was timing out: it wrote what it had read from the cache", p.step.Op, resp.Code))
+					w.readsDownDigest = d
+				}
+			})
+		},
 		Gen:        genStoragePlan,
 		Expand:     expandStorageFaults,
 		Nontrivial: func(res *vfResult) bool { return res.Probes["sync-fault-fired"] > 0 || res.Probes["mutation-while-offline"] > 0 || res.Probes["sync-completed-compared"] > 1 },
@@ -566,6 +605,23 @@ func genStoragePlan(r *rand.Rand, tier string) *vfPlan {
 		add(vfStep{Op: "sync"})
 		if chance(r, 0.5) {
 			add(vfStep{Op: "st_save", User: pick(r, vfStorageUsers), A: "rename", N: int64(r.IntN(100))})
+		}
+		if chance(r, 0.25) {
+			// a second-factor registration begun while the primary was fine is completed while its reads time out
+			u := pick(r, []string{"alice", "bob", "mallory"})
+			add(vfStep{Op: "totp_new", User: u})
+			add(vfStep{Op: "sync"})
+			if chance(r, 0.5) {
+				add(vfStep{Op: "st_save", User: u, A: "rename", N: int64(r.IntN(100))}) // the primary moves on; the cache does not
+			}
+			add(vfStep{Op: "reads_down"})
+			add(vfStep{Op: pick(r, []string{"totp_validate_new", "totp_validate_new", "u2f_regreq", "totp_new"}), User: u})
+			if chance(r, 0.5) {
+				add(vfStep{Op: "mgmt", User: u, A: pick(r, []string{"u2f", "totp"}), B: pick(r, []string{"Disable", "Delete", "Update"}), Target: "tok1"})
+			}
+			add(vfStep{Op: "reads_up"})
+			add(vfStep{Op: "sync"})
+			return p
 		}
 		if chance(r, 0.4) {
 			// no standing outage: single requests during which a short outage ends
